@@ -19,7 +19,8 @@ RULE = ("Hypothesis-generated (cost table T x K, beta) pairs: class E = multiple
         "exact cost of the returned sequence must be <= optimum (+ 8 T eps (sum_i max_k|c_ik| + sum beta) for class F), "
         "the reported cost must equal the exact cost of the returned sequence, labels integral in [0,K). "
         "Non-trivial = T>=2, K>=2 and (the optimum differs from sum_i min_k c_ik, i.e. beta binds, or the returned "
-        "sequence switches label); distinct by SHA-1 of the encoded case.")
+        "sequence switches label); distinct by SHA-1 of the encoded case."
+        ' Tables of 4096..9002 rows (forward-DP oracle) and exact tables with a few entries of 2**57 that no optimal path uses are part of the exact class.')
 ASSUMPTIONS = [
     "the reference forward Viterbi is itself cross-checked against exhaustive enumeration on every tiny case of the run",
     "class-F slack 8*T*eps*(sum_i max_k|c_ik| + sum beta) is an a-priori rounding bound for a T-step float DP; class E uses no tolerance",
@@ -140,6 +141,8 @@ def execute(case, t):
         t.cls(f"table_dtype_{case['dtype']}")
     if case.get("reuse_buffers"):
         t.cls("caller_buffers_reused")
+    if case.get("huge_entries"):
+        t.cls("rows_with_huge_entries")
     if T == 1:
         t.cls("T=1")
     if K == 1:
@@ -195,7 +198,7 @@ def fuzz_seeds():
 SUBCHECKS = [
     SubCheck(
         name="kernel_vs_exact_optimum",
-        strategy=lambda: gen.cost_case(dtypes=("float32", "int64", "int32")),
+        strategy=lambda: gen.cost_case(dtypes=("float32", "int64", "int32"), very_long=True),
         execute=execute,
         pinned=_layout_cases,
         budget={"quick": 3000, "thorough": 160000},
